@@ -34,6 +34,16 @@ def main():
     for i, op in enumerate(h["ops"]):
         k = op[1]
         try:
+            if op[0] == "failing":
+                # a construction / export that fails on the caller's bad input (a time that is no time): whatever it leaves
+                # behind must not reach the other timelines
+                try:
+                    bad = [{"time": "not a time", "width": 10, "text": "x"}, {"time": None, "width": 12}]
+                    (TimelineSVG if k % 2 else TimelineTex)(bad, options={"direction": "left"}).export()
+                    out["events"]["failing_did_not_fail"] = out["events"].get("failing_did_not_fail", 0) + 1
+                except Exception:
+                    out["events"]["failing_raised"] = out["events"].get("failing_raised", 0) + 1
+                continue
             if op[0] == "new":
                 data, options, _ = TL.build(h["specs"][k])
                 if k in share and share[k] in datas:
@@ -53,7 +63,9 @@ def main():
             out["exports"].append({"op": i, "k": k, "exc": "%s: %s" % (type(e).__name__, str(e)[:200])})
     out["interference"] = mon.violations
     out["n_interference"] = mon.n_violations
-    out["events"] = dict(mon.events)
+    ev = dict(mon.events)
+    ev.update(out["events"])
+    out["events"] = ev
     sys.stdout.write(jdumps(out))
 
 
